@@ -117,6 +117,21 @@ def magnitude(D):
     return max([1.0] + [max_abs(M) for M in D.values()])
 
 
+def noise_floor(p: Problem, n) -> float:
+    """Rounding noise of the *input* (e.g. 1e-16 off-diagonal entries left by rotating the Hamiltonian into a supplied
+    eigenbasis) is amplified by (|H'| / gap) at every order, whatever the exact values are - also when the exact
+    result vanishes by a symmetry that rounding breaks.  1000 eps x that natural size bounds it."""
+    if p.exact:
+        return 0.0
+    z = (0,) * p.n_par
+    E = np.asarray([complex(e) for e in p.E])
+    gaps = np.abs(E[:, None] - E[None, :])[~np.asarray(p.keep)]
+    gap = float(gaps.min()) if gaps.size else 1.0
+    size = sum(float(np.abs(M).sum(axis=1).max()) for o, M in p.terms_f.items() if o != z)
+    kappa = max(1.0, size / max(gap, 1e-300))
+    return 1e-13 * kappa ** int(sum(n))
+
+
 def compare_with(p: Problem, got, ref, names=("H_tilde", "U", "U_inv"), label="reference solver", rtol=RTOL):
     """Returns None if all agree else a description string."""
     for name, A, B in zip(names, got, ref):
@@ -127,7 +142,7 @@ def compare_with(p: Problem, got, ref, names=("H_tilde", "U", "U_inv"), label="r
                 # errors of both computations are proportional to the size of intermediate terms
                 scale = max(magnitude(B), magnitude(A)) * max(1.0, max_abs(B[n]))
                 err = float(np.max(np.abs(A[n] - B[n]), initial=0.0))
-                ok = np.isfinite(err) and err <= rtol * scale
+                ok = np.isfinite(err) and err <= rtol * scale + noise_floor(p, n)
             if not ok:
                 return f"{name}_{n} differs from the {label} (err={err})"
     return None
